@@ -325,6 +325,8 @@ def run(prog, check):
                  'after an evaluation error in the last sweep the period is not committed (a value error is raised)' if ok_ else
                  'a period is committed although an evaluation error was stepped over in its last sweep' + wit_,
                  'a persistent division by zero in an equation that is not the last one of the block')
+    from .C02 import nan_stops_the_period
+    nan_stops_the_period(check, sw, 'C11.R2', 'x = x*x + 2: the iterates overflow, the error becomes NaN; a convergence error is due, not a solution')
     check.floor('C11.R2', 3)
     check.floor('C11.R3', 8)
     check.floor('C11.R4', 10)
@@ -548,8 +550,56 @@ def external_sector_guards(prog, check, rule):
     return n_sites
 
 
+def _always_raises(stmts):
+    """control cannot leave this statement list normally: it ends in a raise (or in branches that all do)"""
+    if not stmts:
+        return False
+    last = stmts[-1]
+    if isinstance(last, ast.Raise):
+        return True
+    if isinstance(last, ast.If):
+        return _always_raises(last.body) and _always_raises(last.orelse)
+    if isinstance(last, ast.With):
+        return _always_raises(last.body)
+    if isinstance(last, ast.Try):
+        return bool(last.finalbody) and _always_raises(last.finalbody) or \
+            ((_always_raises(last.body) or _always_raises(last.orelse)) and all(_always_raises(h.body) for h in last.handlers))
+    return False
+
+
+def errors_reach_the_caller(prog, check, rule):
+    """'rejected with an error': the entry points that run generation and the solve let every error class of the package out.
+    A handler around those calls that can catch one of the error classes (bare, Exception, ValueError and its subclasses, NameError,
+    KeyError, SyntaxError) must leave by raising on every path; a handler for Warning (the documented soft stop) is not such a handler."""
+    from ..cfg import handler_types, exc_is_a
+    ERRS = ('LogicError', 'ConvergenceError', 'NoEquilibriumError', 'ValueError', 'NameError', 'KeyError', 'SyntaxError')
+    PIPE = ('SolveEquation', '_GenerateEquations', 'ParseString', '_CreateFinalEquations', 'SolveStep', '_SolveStep')
+    n = 0
+    for f in prog.all_functions():
+        if '/deprecated/' in f.module.rel or '/gl_book/' in f.module.rel:
+            continue
+        for t in [x for x in ast.walk(f.node) if isinstance(x, ast.Try)]:
+            if not any(isinstance(c, ast.Call) and call_name(c) in PIPE for b in t.body for c in ast.walk(b)):
+                continue
+            for h in t.handlers:
+                tys = handler_types(h)
+                catches = [e for e in ERRS if any(ty == '*' or exc_is_a(e, ty) for ty in tys)]
+                if not catches:
+                    continue
+                ok = _always_raises(h.body)
+                n += 1
+                check.saw(f)
+                check.ob(rule, '%s::handler-lets-errors-out(%s)' % (f.key, ','.join(tys)), ok, '%s:%d' % (f.module.rel, h.lineno),
+                         'the handler ends by raising' if ok else
+                         'a handler around generation / solving catches %s and can end without raising: the call returns normally although the '
+                         'model was rejected or did not converge' % ', '.join(catches[:3]),
+                         'a model whose period does not converge, built and run through this entry point')
+    return n
+
+
 def check_guards(prog, check):
     rule = 'C11.R4'
+    errors_reach_the_caller(prog, check, 'C11.R2')
     # duplicates: an append to CountryList / SectorList in a method with a Code parameter object
     for attr in ('CountryList', 'SectorList'):
         found = 0
